@@ -49,7 +49,7 @@ UtxosUpdate(s, rep, rescan) ==
 
 \* ---- creating a transaction.  q: the request, x: the transaction returned
 \* q = [recips: Seq([id, v]), fee (explicit, or -1), minconf, inkeys (set of key ids, {} = any), sweep: BOOLEAN,
-\*      feemin, feemax, nexplicit, explicit (set of <<t, n>>)]
+\*      feemin, feemax, nexplicit, explicit (set of <<t, n>>), above]
 \* x = [ins: Seq([t, n, v]), outs: Seq([v, key (own key id or 0), rid (index into recips or 0)]), fee, vsize]
 Spendable(s, q) == {c \in Unspent(s) : c.conf >= q.minconf /\ (q.inkeys = {} \/ c.key \in q.inkeys)}
 ReqTotal(q) == SumSeq(q.recips, 1)
@@ -71,6 +71,8 @@ TxWhyG(s, q, x, InOK(_)) ==
     ELSE IF \E i \in 1..Len(x.outs) : x.outs[i].rid = 0 /\ ~(\E k \in s.keys : k.id = x.outs[i].key /\ k.change = 1)
          THEN "other-output-not-a-change-address-of-this-wallet"
     ELSE IF q.fee >= 0 /\ ~q.sweep /\ x.fee < q.fee THEN "fee-below-requested"
+    \* a fee bump / replacement (q.above = fee of the transaction replaced) pays more than what it replaces
+    ELSE IF q.above >= 0 /\ x.fee <= q.above THEN "bumped-fee-not-higher"
     \* fee rate limits (per 1000 vbytes), with 3% tolerance for the difference between estimated and final size;
     \* q.feemin / q.feemax = 0: limit not checked (value outside this model's integer range)
     ELSE IF x.vsize > 0 /\ q.feemin > 0 /\ x.fee < ((q.feemin \div 1000) * x.vsize * 97 + 99) \div 100 THEN "fee-rate-below-network-minimum"
